@@ -60,7 +60,7 @@ type c06Scenario struct {
 	Steps    []c06Step `json:"steps"`
 }
 
-var c06Points = []string{"group.loaded", "group.created", "maint.destroyed", "maint.deleted", "flush.notified"}
+var c06Points = []string{"group.loaded", "group.created", "maint.destroyed", "maint.deleted", "flush.notified", "log:flushing", "log:ag-other"}
 
 func genC06(t *rapid.T) c06Scenario {
 	sc := c06Scenario{
@@ -90,6 +90,36 @@ func genC06(t *rapid.T) c06Scenario {
 	return sc
 }
 
+// c06LogGate is the dispatcher's logger: a record written through an aggregation group's logger (the one carrying
+// the "aggrGroup" attribute) is a schedule point of its own, "log:flushing" for the line that opens a flush and
+// "log:ag-other" for any other line (the unchanged tree has none on the paths exercised here; a line added inside a
+// check-then-act window becomes a place where the harness can hold the goroutine).
+type c06LogGate struct {
+	ag   bool
+	hook func(name string)
+}
+
+func (h c06LogGate) Enabled(context.Context, slog.Level) bool { return true }
+func (h c06LogGate) WithGroup(string) slog.Handler            { return h }
+func (h c06LogGate) WithAttrs(as []slog.Attr) slog.Handler {
+	for _, a := range as {
+		if a.Key == "aggrGroup" {
+			h.ag = true
+		}
+	}
+	return h
+}
+func (h c06LogGate) Handle(_ context.Context, r slog.Record) error {
+	if h.ag && h.hook != nil {
+		if r.Message == "flushing" {
+			h.hook("log:flushing")
+		} else {
+			h.hook("log:ag-other")
+		}
+	}
+	return nil
+}
+
 type c06Limits int
 
 func (l c06Limits) MaxNumberOfAggregationGroups() int { return int(l) }
@@ -108,7 +138,7 @@ type c06Delivery struct {
 }
 
 func execC06(sc c06Scenario) (res pbt.Result) {
-	overlap, recreated, acrossStart, snapshotParked := false, false, false, false
+	overlap, recreated, acrossStart, snapshotParked, flushEndParked := false, false, false, false, false
 	synctest.Test(pbt.T(), func(*testing.T) {
 		ctx, cancel := context.WithCancel(context.Background())
 		defer cancel()
@@ -138,6 +168,7 @@ func execC06(sc c06Scenario) (res pbt.Result) {
 		})
 		dm := dispatch.NewDispatcherMetrics(false, reg, featurecontrol.NoopFlags{})
 		gm := marker.NewGroupMarker()
+		var hookFn func(name string, arg any) // set below, before the dispatcher runs
 		var pipeline notify.Stage = stage
 		if sc.Muted {
 			cr.MuteTimeIntervals = []string{"always"}
@@ -146,7 +177,11 @@ func execC06(sc c06Scenario) (res pbt.Result) {
 			pipeline = notify.MultiStage{notify.NewTimeActiveStage(intervener, gm, nm), notify.NewTimeMuteStage(intervener, gm, nm), stage}
 		}
 		disp := dispatch.NewDispatcher(alerts, dispatch.NewRoute(cr, nil), pipeline, gm, func(d time.Duration) time.Duration { return d },
-			time.Duration(sc.Maint)*time.Second, c06Limits(sc.Limit), nopLog, eventrecorder.NopRecorder(), dm, nil)
+			time.Duration(sc.Maint)*time.Second, c06Limits(sc.Limit), slog.New(c06LogGate{hook: func(n string) {
+				if hookFn != nil {
+					hookFn(n, nil)
+				}
+			}}), eventrecorder.NopRecorder(), dm, nil)
 
 		parkAt := map[string]bool{}
 		for _, p := range sc.Park {
@@ -158,7 +193,7 @@ func execC06(sc c06Scenario) (res pbt.Result) {
 		seq := 0
 		draining := false
 		created := map[string]time.Time{} // group key -> creation instant of its latest incarnation
-		verifhook.Set(func(name string, arg any) {
+		hookFn = func(name string, arg any) {
 			if name == "group.created" {
 				if g, ok := arg.(interface{ GroupKey() string }); ok {
 					mtx.Lock()
@@ -179,7 +214,8 @@ func execC06(sc c06Scenario) (res pbt.Result) {
 			parked = append(parked, p)
 			mtx.Unlock()
 			<-p.gate
-		})
+		}
+		verifhook.Set(hookFn)
 		defer verifhook.Set(nil)
 		lastPut := map[model.Fingerprint]time.Time{}
 		put := func(st c06Step, i int) {
@@ -237,6 +273,9 @@ func execC06(sc c06Scenario) (res pbt.Result) {
 			p := parked[idx]
 			parked = append(parked[:idx], parked[idx+1:]...)
 			mtx.Unlock()
+			if p.point == "flush.notified" || p.point == "log:ag-other" {
+				flushEndParked = true
+			}
 			if sc.StartDelay > 0 && (p.point == "group.loaded" || p.point == "group.created") && p.at.Before(startAt) && !time.Now().Before(startAt) {
 				acrossStart = true
 			}
@@ -403,6 +442,9 @@ func execC06(sc c06Scenario) (res pbt.Result) {
 	}
 	if snapshotParked {
 		res.Class("snapshot-version-parked")
+	}
+	if flushEndParked {
+		res.Class("parked-at-flush-end")
 	}
 	for _, p := range sc.Park {
 		res.Class("park:" + p)
